@@ -277,7 +277,8 @@ void XmppSocket::processData(const QString &data)
     //
     // Check whether we received a stream open or closing tag
     //
-    static const QRegularExpression streamStartRegex(uR"(^(<\?xml.*\?>)?\s*<stream:stream[^>]*>)"_s);
+    // the XML declaration may contain line breaks and attribute values may contain '>'
+    static const QRegularExpression streamStartRegex(uR"re(^(<\?xml[^>]*\?>)?\s*<stream:stream(?:[^>'"]|'[^']*'|"[^"]*")*>)re"_s);
     static const QRegularExpression streamEndRegex(u"</stream:stream>$"_s);
 
     auto streamOpenMatch = streamStartRegex.match(m_dataBuffer);
